@@ -681,6 +681,36 @@ example :
     (out.2.2.obj.map (fun x => ((lookup "status" x.body).bind (fun st => st.get? "log")).map (fun l => J.beq l (arr [str "t#0"])))) = some (some true) := by
   decide
 
+/-- NOT LOST fails for a daemon that ends (finding C08-F3): the daemon's only invocation appends a transformation,
+    a foreign edit slips in right before the JSON-patch of its delivery (422: everything remains), the function
+    has returned, so the runner leaves its loop — the remaining patch is dropped with the task: the object lives
+    on without the effect and nothing is left to bring it. (`daemon_delivery_not_repeated` is the part that holds:
+    an accepted last delivery leaves nothing behind.) Replayed on the real operator by the check
+    (corpus/C08/F3_daemon_exit_drops_remaining.json). -/
+theorem daemon_exit_drops_remaining_witness :
+    ∃ (sub : Bool) (o : Obj) (s : Server) (c : CycleIn),
+      s.obj = some o ∧ c.orig = o ∧ c.fns ≠ [] ∧
+      ((daemonRun sub none s [c]).1.map (fun x => x.2.reqs.map (fun r => (r.kind, r.code)))) = [[(.mergeBody, 200), (.jsonBody, 422)]] ∧
+      (daemonLife sub s [c]).2 = some c.fns ∧
+      ((daemonLife sub s [c]).1.obj.map (fun x => (x.uid, ((lookup "status" x.body).bind (fun st => st.get? "log")).isNone)))
+        = some (o.uid, true) :=
+  ⟨false, ⟨1, 5, false, [], []⟩, ⟨5, 1, some ⟨1, 5, false, [], []⟩⟩,
+   ⟨[("status", obj [("a", str "d#0")])], [.appendStatus "log" (str "d#0")], ⟨1, 5, false, [], []⟩,
+    { slips := fun k => if k = .jsonBody then [.edit [("spec", num 1)]] else [], faults := fun _ => .none }⟩,
+   rfl, rfl, by simp, by decide, by rfl, by decide⟩
+
+/-- `memories.recall`: the remaining patch is kept under the uid of the object it was computed for; a cycle for an
+    object of another uid (the name re-used) starts from an empty memory, whatever remained for the former one —
+    so the patch of its first cycle holds exactly what that cycle accumulates. -/
+theorem remaining_stays_with_its_uid (u : Nat) (orig : Obj) (mem : Option (List Fn)) (fields : Kvs) (fns : List Fn)
+    (h : orig.uid ≠ u) :
+    recalled (some u) orig mem = none ∧ nextPatch (recalled (some u) orig mem) fields fns = ⟨fields, fns⟩ := by
+  have h' : ¬ (u = orig.uid) := fun e => h e.symm
+  simp [recalled, h', nextPatch]
+
+example : recalled (some 1) ⟨1, 5, false, [], []⟩ (some [.userFin true "u"]) = some [.userFin true "u"] := by rfl
+example : (recalled (some 1) ⟨2, 7, false, [], []⟩ (some [.userFin true "u"])).isNone = true := by decide
+
 /-! ## a vanished object ends the patching silently -/
 
 /-- A 404 — the object is gone, or was deleted by a foreign write right before the request, or the
